@@ -195,7 +195,7 @@ pub fn run(ctx: &mut Ctx) {
     ctx.samples.push(json!({"sub": sub, "what": "typed sweep", "raws_decoded": total, "example": "type 1 longitude raw 0x8000000 (most negative) -> expected -223.696213 degrees"}));
 
     // (c) generated joint assignments through the generic path
-    let n = ctx.tier.pick(30_000, 1_000_000);
+    let n = ctx.tier.pick(120_000, 1_000_000);
     ctx.run_proptest("random-assignments", &STD, n, payload_inputs(COORD_TYPES.iter().copied().chain([5u8]).collect(), LenMode::Standard, Prop::C10, 8, 0.10), check);
     for cfg in configs().into_iter().skip(1) {
         ctx.run_proptest("random-assignments", cfg, n / 3, payload_inputs(COORD_TYPES.iter().copied().chain([5u8]).collect(), LenMode::Standard, Prop::C10, 8, 0.10), check);
